@@ -20,6 +20,10 @@ class Frame:
         c = self.cells.get(l)
         if c is None:
             c = self.cells[l] = Cell(f"{self.fn.name}:{l}")
+            # zero-sized values are never assigned in MIR: a capture-less closure local is the closure itself
+            t = self.fn.locals.get(l)
+            if t and t.lstrip().startswith("{closure@"):
+                c.v = Closure(t.strip(), (), ())
         return c
 
 
@@ -85,9 +89,11 @@ class Interp:
                 if not isinstance(v, EnumV): raise Unsupported(f"downcast of {v!r}")
                 if v.variant != p[1]: raise Unsupported(f"downcast {v!r} as {p[1]}")
             elif k == "i" or k == "ci":
+                if isinstance(v, str): v = VecV(list(v.encode()))          # bytes of a literal string
                 if not isinstance(v, VecV): raise Unsupported(f"index into {v!r}")
                 v = v.items[p[1]]
             elif k == "c":
+                if isinstance(v, str): v = VecV(list(v.encode()))
                 if not isinstance(v, VecV): raise Unsupported(f"index into {v!r}")
                 v = v.items[-p[1] if p[3] else p[1]]
             elif k == "s":
@@ -140,7 +146,13 @@ class Interp:
             if p[0] == "i" and isinstance(p[1], str):
                 idx = fr.cell(p[1]).v
                 if not isinstance(idx, int):
-                    raise Unsupported("symbolic index projection")   # handled by Index models, never in repo MIR
+                    # the preceding bounds-check assert already put idx < len on the path: fork over the feasible indices
+                    idx = z3.simplify(idx)
+                    if z3.is_int_value(idx): idx = idx.as_long()
+                    else:
+                        k = ctx.choose([idx == j for j in range(32)] + [idx >= 32], "index")
+                        if k == 32: raise Unsupported("symbolic index projection beyond 32 elements")
+                        idx = k
                 out.append(("i", idx))
             else: out.append(p)
         return tuple(out)
@@ -197,9 +209,10 @@ class Interp:
                     if name in fs: f = fs[name]; break
             if f is None: raise Unsupported(f"promoted const {name}")
             return self.call_mir(ctx, f, [])
-        m2 = re.match(r"^(?:core|std)::(?:num::<impl )?(u8|u16|u32|u64|u128|usize)>?::(MAX|MIN|BITS)$", s)
+        m2 = re.match(r"^(?:(?:core|std)::)?(?:num::<impl )?(u8|u16|u32|u64|u128|usize|i8|i16|i32|i64|i128|isize)>?::(MAX|MIN|BITS)$", s)
         if m2:
-            return {"MAX": INTMAX[m2.group(1)] - 1, "MIN": 0, "BITS": INTMAX[m2.group(1)].bit_length() - 1}[m2.group(2)]
+            lo_, hi_ = int_bounds(m2.group(1))
+            return {"MAX": hi_ - 1, "MIN": lo_, "BITS": int_bits(m2.group(1))}[m2.group(2)]
         h = self.models.lookup_const(name)
         if h is not None: return h(self, ctx, name)
         f = self.prog.resolve(name, cur)
@@ -209,6 +222,13 @@ class Interp:
             return FnItem((s, cur))
         # enum unit variants / unit structs used as constants, PhantomData ...
         if re.match(r"^[\w:<>, ']+$", name):
+            segs = name.split("::")
+            if len(segs) >= 2:
+                if segs[-2] == "Option" and segs[-1] == "None": return NONE
+                td = self.prog.types.lookup("::".join(segs[:-1]), cur)
+                if td is not None and td.kind == "enum":
+                    for v_ in td.variants:
+                        if v_.name == segs[-1] and v_.kind == "unit": return EnumV(td.name, segs[-1], ())
             return FnItem((s, cur))
         raise Unsupported(f"const {s}")
 
@@ -239,7 +259,9 @@ class Interp:
             if rv[1] == "Not":
                 if isinstance(a, bool): return not a
                 if is_sym(a) and z3.is_bool(a): return z3.Not(a)
-                raise Unsupported("bitwise Not on integer")
+                t = (dest_ty or "").strip()
+                if int_bits(t) is None: raise Unsupported("bitwise Not on an integer of unknown width")
+                return (-a - 1) if t in SINT else (int_bounds(t)[1] - 1 - a)
             if rv[1] == "Neg": return -a
             if rv[1] == "PtrMetadata":
                 v = self.deref(ctx, a)
@@ -257,14 +279,21 @@ class Interp:
                 if isinstance(v, bool): return int(v)
                 if is_sym(v) and z3.is_bool(v): return z3.If(v, 1, 0)
                 if isinstance(v, EnumV): v = self.discriminant(v, fr.fn.crate)
+                op = rv[1]
+                src = fr.fn.locals.get(op[1][0]) if op[0] in ("copy", "move") and not op[1][1] else None
+                src = src.strip() if src else None
                 if ty in INTMAX:
                     if isinstance(v, int): return v % INTMAX[ty]
+                    if src in INTMAX and INTMAX[src] <= INTMAX[ty]: return v          # widening (or same width) between unsigned types
                     return self.narrow(ctx, v, INTMAX[ty])
                 if ty in SINT:
+                    b = SINT[ty]
                     if isinstance(v, int):
-                        b = SINT[ty]; v %= 2 ** b
+                        v %= 2 ** b
                         return v - 2 ** b if v >= 2 ** (b - 1) else v
-                    raise Unsupported("symbolic cast to signed int")
+                    if src in INTMAX and INTMAX[src] <= 2 ** (b - 1): return v            # unsigned into a wider signed type
+                    if src in SINT and SINT[src] <= b: return v                         # signed widening
+                    return (v + 2 ** (b - 1)) % (2 ** b) - 2 ** (b - 1)                 # two's-complement reinterpretation / truncation
                 raise Unsupported(f"IntToInt to {ty}")
             return v
         if k == "tuple": return tuple(self.operand(ctx, fr, o) for o in rv[1])
@@ -292,6 +321,9 @@ class Interp:
             if rv[1] == "OverflowChecks": return True
             raise Unsupported(f"nullop {rv[1]}")
         raise Unsupported(f"rvalue {rv}")
+
+    def narrow_to(self, ctx, v, ty):
+        return wrap_int(v, ty)
 
     def narrow(self, ctx, v, mod):
         """v mod 2^k, avoiding the mod term when the solver-free range facts already show v < 2^k"""
@@ -323,7 +355,7 @@ class Interp:
 
     def discriminant(self, v, crate=None):
         if v.ty == "Ordering": return {"Less": -1, "Equal": 0, "Greater": 1}[v.variant]
-        return self.prog.variant_index(v.ty, v.variant, crate)
+        return self.prog.variant_discr(v.ty, v.variant, crate)
 
     def binop(self, ctx, op, a, b, dest_ty):
         if isinstance(a, EnumV): a = self.discriminant(a)
@@ -368,12 +400,29 @@ class Interp:
                 return znot(zeq(a, b))
             if isinstance(a, int) and isinstance(b, int):
                 return {"BitAnd": a & b, "BitOr": a | b, "BitXor": a ^ b}[op]
-            raise Unsupported(f"bitwise {op} on symbolic integers")
+            t = (dest_ty or "").strip()
+            bits = int_bits(t)
+            if bits is None: raise Unsupported(f"bitwise {op} on symbolic integers of unknown width ({t!r})")
+            # low-bit masks stay in integer arithmetic; everything else goes through bit-vectors of the operand width
+            for x, y in ((a, b), (b, a)):
+                if op == "BitAnd" and isinstance(y, int) and y >= 0 and (y + 1) & y == 0 and t in INTMAX: return x % (y + 1)
+            bv = lambda x: z3.Int2BV(x if z3.is_expr(x) else z3.IntVal(x), bits)
+            r = {"BitAnd": lambda: bv(a) & bv(b), "BitOr": lambda: bv(a) | bv(b), "BitXor": lambda: bv(a) ^ bv(b)}[op]()
+            return z3.BV2Int(r, is_signed=(t in SINT))
         if op in ("Shl", "Shr", "ShlUnchecked", "ShrUnchecked"):
-            if isinstance(a, int) and isinstance(b, int): return (a << b) if op.startswith("Shl") else (a >> b)
-            if isinstance(b, int):
-                return a * (2 ** b) if op.startswith("Shl") else a / (2 ** b)
-            raise Unsupported("symbolic shift amount")
+            t = (dest_ty or "").strip()
+            if not isinstance(b, int):
+                bits = int_bits(t)
+                if bits is None: raise Unsupported("symbolic shift amount")
+                b = ctx.concretize_int(b, 0, bits, "shift")
+            if op.startswith("Shr"):
+                # arithmetic on signed, logical on unsigned: both are floor division by 2^b of the mathematical value
+                return a >> b if isinstance(a, int) else a / (2 ** b)
+            r = a * (2 ** b)
+            if int_bits(t) is None:
+                if isinstance(r, int): return r
+                raise Unsupported(f"left shift of unknown width ({t!r})")
+            return wrap_int(r, t)
         if op == "Cmp":
             lt, eq = a < b, a == b
             if isinstance(lt, bool): return EnumV("Ordering", "Less" if lt else ("Equal" if eq else "Greater"))
@@ -470,6 +519,7 @@ class Interp:
                 ctx.models_used.add("stub:" + last)
                 return st(self, ctx, callee, args, cur_crate)
         h = self.models.lookup(callee)
+        if h is not None: h = self._unshadowed_model(h, callee, cur_crate)
         if h is not None:
             ctx.models_used.add(h.__name__)
             r = h(self, ctx, callee, args, cur_crate)
@@ -488,6 +538,28 @@ class Interp:
         r = self.try_ctor(callee, args, cur_crate)
         if r is not None: return r
         raise Unsupported(f"no MIR and no model for callee `{callee}` (crate {cur_crate})")
+
+    _SHADOW_CACHE = {}
+
+    def _unshadowed_model(self, h, callee, cur_crate):
+        """library models are keyed by type names (`Version::new`, `<Version as PartialOrd>::lt`).  When the self type of the
+        callee is *defined in a crate under analysis* it merely shares its name with the modelled library type: the model
+        chosen for the same callee with the type name replaced by a neutral one (i.e. the generic model, or none) is used"""
+        key = (id(self.prog), callee, cur_crate)
+        if key in self._SHADOW_CACHE: return self._SHADOW_CACHE[key]
+        name = strip_generics(callee).strip()
+        m = re.match(r"^<(.*?) as .*>::\w+$", name)
+        selfty = m.group(1) if m else ("::".join(name.split("::")[:-1]) if "::" in name else None)
+        r = h
+        if selfty and re.match(r"^[&\w:' ]+$", selfty):
+            td = self.prog.types.lookup(selfty, cur_crate)
+            q = selfty.strip().lstrip("&").replace("mut ", "").split("::")
+            if (td is not None and td.crate in getattr(self.prog, "crates", ()) and simple_name(selfty) == td.name
+                    and (len(q) == 1 or q[0].replace("_", "-") in self.prog.crates or q[0] in ("crate", "self", "super"))):
+                neutral = re.sub(r"\b" + re.escape(td.name) + r"\b", "UserDefinedType0", callee)
+                r = self.models.lookup(neutral)
+        self._SHADOW_CACHE[key] = r
+        return r
 
     def try_ctor(self, callee, args, cur_crate):
         name = strip_generics(callee)
